@@ -624,14 +624,14 @@ def _hseq(L):
 def _seen(L, lit):
     seq = _hseq(L)
     i = qvar("i")
-    return z3.Exists([i], And(seq.lo <= i, i < seq.lo + L.idx, name_is(seq, i, lit)))
+    return z3.Exists([i], And(seq.lo <= i, i < seq.lo + L.loop_index, name_is(seq, i, lit)))
 
 
 def _cl_inv(L):
     seq = _hseq(L)
     i, j = qvar("i"), qvar("j")
     cl = L.content_length
-    rng = lambda k: And(seq.lo <= k, k < seq.lo + L.idx)
+    rng = lambda k: And(seq.lo <= k, k < seq.lo + L.loop_index)
     none_so_far = z3.ForAll([i], Implies(rng(i), Not(name_is(seq, i, "CONTENT-LENGTH"))))
     if isinstance(cl, SNone):
         return none_so_far
